@@ -76,11 +76,21 @@ def run_alloc(c):
     dc = c["die"]
     unit = dc["unit"]
     u = Fr(unit)
+    tree, dtree = netlist_tree(c), D.die_tree(dc)
     try:
-        nl = Netlist(netlist_tree(c))
-        die = Die(D.die_tree(dc), nl)
+        nl = Netlist(tree)
+        die = Die(dtree, nl)
     except Exception as e:
         raise RuntimeError("generator produced a design that is rejected: %s: %s\n%s" % (type(e).__name__, e, c))
+    if c.get("reuse"):
+        # the same parsed descriptions are used again (e.g. one netlist per die refinement): the second design is the design
+        if tree != netlist_tree(c) or dtree != D.die_tree(dc):
+            raise Violation("loading the design altered the caller's description: netlist now %r" % (tree,), "description-altered")
+        try:
+            nl = Netlist(tree)
+            die = Die(dtree, nl)
+        except Exception as e:
+            raise Violation("the same descriptions are rejected when loaded a second time: %s: %s" % (type(e).__name__, e), "second-load-rejected")
     ref = c["refine"]
     if not die.floorplanning_rectangles()[0]:
         return dict(nt=False, cls=["no-refinable-cell"])
@@ -196,7 +206,7 @@ def run_alloc(c):
         own = sum((X.area(L.to_fr(r, unit)) for r in rl), Fr(0))
         if abs(Fr(alloc.area("F%d" % k)) - own) > atol:
             raise Violation("area(F%d) = %r, its rectangles have area %s" % (k, alloc.area("F%d" % k), float(own)), "fixed-area")
-    cls = []
+    cls = ["descriptions-loaded-twice"] if c.get("reuse") else []
     if dc["fixed"]:
         cls.append("with-fixed")
     if ref:
@@ -262,10 +272,10 @@ def case_s(draw):
         mods.append(m)
     moves = {m["name"]: [draw(_i(-3, 3)), draw(_i(-3, 3))] for m in mods if m["kind"] == "hard" and draw(st.booleans())}
     return dict(die=dc, refine=ref, modules=mods, include_zero=draw(st.booleans()), fixed_last=draw(st.booleans()),
-                moves=moves, alloc_before_move=draw(st.booleans()))
+                moves=moves, alloc_before_move=draw(st.booleans()), reuse=draw(st.booleans()))
 
 
 def subchecks():
-    return [Sub("designs", run_alloc, strategy=case_s(), n_quick=5000, n_thorough=120000,
+    return [Sub("designs", run_alloc, strategy=case_s(), n_quick=5000, n_thorough=120000, fuzz_thorough=2500,
                 required=("with-fixed", "refined-split", "refined-grid", "include-zero", "square-from-centre", "hard-module",
-                          "sticks-out", "overlaps-fixed-cell", "covers-a-cell-completely", "tiny-die", "hard-module-recentred-in-place"))]
+                          "sticks-out", "overlaps-fixed-cell", "covers-a-cell-completely", "tiny-die", "hard-module-recentred-in-place", "descriptions-loaded-twice"))]
